@@ -385,6 +385,7 @@ func (cr *checkRun) report(evPath string, t0 time.Time, seed int, quiet bool, ve
 		"undecided":                undecided,
 	}
 	var bnd []interface{}
+	var unlisted []map[string]interface{}
 	nb, nstand := 0, 0
 	for _, br := range cr.bounded {
 		ent := map[string]interface{}{"name": br.Item.Name, "what": br.Item.What, "bound": br.Item.Bound, "seconds": br.Seconds, "passed": br.OK, "labelled": "bounded stand-in (not a proof; not counted in discharged)"}
@@ -407,10 +408,19 @@ func (cr *checkRun) report(evPath string, t0 time.Time, seed int, quiet bool, ve
 			if kl, ok := br.Report["known_findings"].([]interface{}); ok {
 				for _, x := range kl {
 					xm, _ := x.(map[string]interface{})
+					listed := false
 					for _, f := range cr.findings.Findings {
-						if f.Status == "open" && f.Bounded == br.Item.Name && f.ID == fmt.Sprint(xm["id"]) && f.appliesTo(prop) {
-							knownSeen = append(knownSeen, fmt.Sprintf("KNOWN-FINDING: property=%s %s [%s; reproduced by bounded stand-in %s on input %v: %v]", prop, f.What, f.ID, br.Item.Name, toJSON(xm["input"]), xm["message"]))
+						if f.Status == "open" && f.Bounded == br.Item.Name && f.ID == fmt.Sprint(xm["id"]) {
+							listed = true
+							if f.appliesTo(prop) {
+								knownSeen = append(knownSeen, fmt.Sprintf("KNOWN-FINDING: property=%s %s [%s; reproduced by bounded stand-in %s on input %v: %v]", prop, f.What, f.ID, br.Item.Name, toJSON(xm["input"]), xm["message"]))
+							}
 						}
+					}
+					if !listed {
+						// the harness recognises the failure pattern of a finding that is not (or no longer) listed as
+						// open in known_findings.json: an ordinary violation
+						unlisted = append(unlisted, map[string]interface{}{"name": br.Item.Name, "id": xm["id"], "input": xm["input"], "message": xm["message"], "item": br.Item})
 					}
 				}
 			}
@@ -483,6 +493,15 @@ func (cr *checkRun) report(evPath string, t0 time.Time, seed int, quiet bool, ve
 			path, tail := cr.writeReplay(v, verifDir)
 			fmt.Printf("VIOLATION property=%s replay=%s obligation=%s status=%s%s\n", prop, path, v.Obl.Name, v.Status, tail)
 		}
+	}
+	for _, u := range unlisted {
+		code = 1
+		it := u["item"].(*BoundedItem)
+		os.MkdirAll(filepath.Join(verifDir, "replays"), 0o755)
+		path := filepath.Join(verifDir, "replays", safeName(prop+"-bounded-"+it.Name+"-"+fmt.Sprint(u["id"]))+".json")
+		writeJSON(path, map[string]interface{}{"property": prop, "kind": "bounded-stand-in", "name": it.Name, "failing_input": u["input"], "message": u["message"],
+			"pkg": it.Pkg, "files": it.Files, "replay_test": it.ReplayRun, "note": "failure pattern of finding " + fmt.Sprint(u["id"]) + ", which is not listed as open in known_findings.json; replay with /verif/bin/replay <this file>"})
+		fmt.Printf("VIOLATION property=%s replay=%s bounded=%s message=%v\n", prop, path, it.Name, u["message"])
 	}
 	for _, br := range cr.bounded {
 		if br.Report != nil && br.Report["failure"] != nil {
